@@ -44,6 +44,7 @@ const FAULTS: &[&str] = &[
     "private-data-wrong-size",
     "nonbool-direction-bit",
     "conflicting-public-value",
+    "asserted-relation-violated",
 ];
 
 /// Slots written by a `Const` op: an input aliased (via connect) to a constant is determined by
@@ -68,6 +69,9 @@ struct Scenario<E> {
     dir_bit_public: Option<usize>,
     /// which op kinds consume inputs directly (for the distinctness key)
     consumer: &'static str,
+    /// (index of a public input, value) that violates a relation the circuit asserts on that input
+    /// (boolean check, zero check, non-zero divisor): fault `asserted-relation-violated`
+    violating_public: Option<(usize, E)>,
 }
 
 fn variant(e: &impl std::fmt::Debug) -> String {
@@ -90,6 +94,7 @@ fn execute<E: p3_field::Field>(sc: &Scenario<E>, fault: &str) -> Option<String> 
         "no-private" | "private-short" | "private-twice-different" => !sc.privates.is_empty(),
         f if f.starts_with("private-data") => !sc.pdata.is_empty(),
         "nonbool-direction-bit" => sc.dir_bit_public.is_some(),
+        "asserted-relation-violated" => sc.violating_public.is_some(),
         _ => true,
     };
     if !applicable {
@@ -103,6 +108,10 @@ fn execute<E: p3_field::Field>(sc: &Scenario<E>, fault: &str) -> Option<String> 
         }
         "public-long" => publics.push(one),
         "nonbool-direction-bit" => publics[sc.dir_bit_public.unwrap()] = one + one,
+        "asserted-relation-violated" => {
+            let (i, v) = sc.violating_public.unwrap();
+            publics[i] = v;
+        }
         "conflicting-public-value" => {
             let last = publics.len() - 1;
             publics[last] += one;
@@ -210,6 +219,7 @@ fn scenario_prog<S: Setup>(rng: &mut SmallRng) -> Option<Scenario<S::E>> {
         pdata: vec![],
         dir_bit_public: None,
         consumer: "alu+hint",
+        violating_public: None,
     })
 }
 
@@ -352,6 +362,57 @@ fn scenario_poseidon(rng: &mut SmallRng, kind: u32) -> Option<Scenario<EF4>> {
             (3, true) => "poseidon2-sponge-inputs-only-npo+expected-digest",
             _ => "poseidon2-merkle",
         },
+        violating_public: None,
+    })
+}
+
+/// Directed circuits that assert a relation on a public input: `kind` 0 = `assert_bool(p)` (fault:
+/// p = 2), 1 = `assert_zero(p - c)` (fault: p = c + 1), 2 = `x / p` (fault: p = 0 with x != 0),
+/// 3 = `assert_bool` of a computed value `p * q` (fault: p such that p*q = 2). The input also feeds
+/// ordinary ALU rows so that the circuit is not degenerate.
+fn scenario_assert<S: Setup>(rng: &mut SmallRng, kind: u32) -> Option<Scenario<S::E>> {
+    let mut b = CircuitBuilder::<S::E>::new();
+    let p = b.public_input();
+    let x = b.public_input();
+    let xv = S::el(&[3 + rng.random::<u64>() % 1000]);
+    let (pv, viol, consumer): (S::E, S::E, &'static str) = match kind {
+        0 => {
+            b.assert_bool(p);
+            let m = b.mul(p, x);
+            let _ = b.add(m, x);
+            let bit = S::el(&[rng.random_range(0..2u64)]);
+            (bit, S::el(&[2]), "alu-assert-bool")
+        }
+        1 => {
+            let c = S::el(&[5 + rng.random::<u64>() % 1000]);
+            let ce = b.define_const(c);
+            let d = b.sub(p, ce);
+            b.assert_zero(d);
+            let _ = b.mul(p, x);
+            (c, c + S::E::ONE, "alu-assert-zero")
+        }
+        2 => {
+            let q = b.div(x, p);
+            let _ = b.add(q, x);
+            (S::el(&[2 + rng.random::<u64>() % 1000]), S::E::ZERO, "alu-div")
+        }
+        _ => {
+            let m = b.mul(p, x);
+            b.assert_bool(m);
+            let _ = b.add(m, x);
+            // honest: p = 0 -> m = 0; violating: p = 2/x -> m = 2
+            (S::E::ZERO, S::el(&[2]) * p3_field::Field::inverse(&xv), "alu-assert-bool-computed")
+        }
+    };
+    let circuit = guarded(|| b.build()).ok()?.ok()?;
+    Some(Scenario {
+        circuit,
+        publics: vec![pv, xv],
+        privates: vec![],
+        pdata: vec![],
+        dir_bit_public: None,
+        consumer,
+        violating_public: Some((0, viol)),
     })
 }
 
@@ -373,6 +434,15 @@ fn outcomes(seed: u64, idx: usize) -> (String, BTreeMap<String, String>) {
             }
         }
         m
+    }
+    // every 16th scenario: a directed assertion circuit (kinds cycle with the index, two setups)
+    if idx % 16 == 9 {
+        let kind = ((idx / 16) % 4) as u32;
+        return if (idx / 64) % 2 == 0 {
+            scenario_assert::<BbD1>(&mut rng, kind).map(|sc| (sc.consumer.to_string(), all(&sc))).unwrap_or_default()
+        } else {
+            scenario_assert::<BbD4>(&mut rng, kind).map(|sc| (sc.consumer.to_string(), all(&sc))).unwrap_or_default()
+        };
     }
     match idx % 8 {
         0 | 1 | 2 | 3 => match scenario_poseidon(&mut rng, (idx % 8) as u32) {
@@ -507,12 +577,18 @@ fn main() {
             }
             // "long" vectors and a perturbed last public may legitimately be harmless only if the
             // API says so: length is always checked; a perturbed value may still satisfy the circuit.
-            let may_succeed = fault == "conflicting-public-value" && !consumer.ends_with("+expected-digest");
+            // boolean checks are enforced by the proof system, not by the witness generator: a
+            // non-boolean value under assert_bool is not a *witness conflict* (the mechanism C19
+            // names), so a successful run is not judged here (C02 judges that the trace cannot be
+            // proven); the two profiles must still agree. Zero checks (connect) and divisions are
+            // enforced by the runner and are judged.
+            let bool_only = fault == "asserted-relation-violated" && consumer.starts_with("alu-assert-bool");
+            let may_succeed = (fault == "conflicting-public-value" && !consumer.ends_with("+expected-digest")) || bool_only;
             // a faulted run that produces exactly the unfaulted witness used no unset value: the
             // withheld / altered input was determined by the circuit itself (aliased to a constant
             // or to a computed value)
             let same_as_unfaulted = m.get("none").is_some_and(|o| o == out_rel);
-            let determined_conflict = fault == "conflicting-public-value" && consumer.ends_with("+expected-digest");
+            let determined_conflict = (fault == "conflicting-public-value" && consumer.ends_with("+expected-digest")) || (fault == "asserted-relation-violated" && !consumer.starts_with("alu-assert-bool"));
             if out_rel.starts_with("run:Ok") && same_as_unfaulted && out_dev.as_deref() == Some(out_rel.as_str()) && !determined_conflict {
                 rep.add(CaseResult::held(key, false).count(format!("redundant-input/{fault}"), 1));
                 continue;
